@@ -60,8 +60,8 @@ type c6keystore interface {
 
 type c6driver interface {
 	ks() c6keystore
-	probe() c6keystore       // uncached view of the same storage (used only to learn a new key's bytes)
-	reopen() error           // a new keystore object over the same storage
+	probe() c6keystore         // uncached view of the same storage (used only to learn a new key's bytes)
+	reopen() error             // a new keystore object over the same storage
 	rotatedID(s c6slot) string // KeyID under which ListRotatedKeys reports the slot
 	genStamps(s c6slot) (uint64, uint64, bool)
 	dump() string
@@ -329,13 +329,17 @@ func (e *c6specSlot) gen(o int) {
 	}
 	e.cur = o
 }
-func (e *c6specSlot) destroyRot(i int) {
+
+// destroyRot removes the rotated key listed with index i and returns its label (0: no such index).
+func (e *c6specSlot) destroyRot(i int) int {
 	n := len(e.rot)
 	if i < 2 || i > n+1 {
-		return
+		return 0
 	}
 	p := n - 1 - (i - 2) // index 2 = oldest = last of the newest-first list
+	gone := e.rot[p]
 	e.rot = append(append([]int{}, e.rot[:p]...), e.rot[p+1:]...)
+	return gone
 }
 
 func c6ints(l []int) string { return strings.Trim(fmt.Sprint(l), "[]") }
@@ -371,12 +375,14 @@ type c6run struct {
 	ords     map[string]int
 	nOrd     int
 	offered  map[c6slot]map[int]bool
-	fresh    bool // no mutator since the cache was last emptied
+	gone     map[c6slot]map[int]bool // keys destroyed (current or rotated-by-index), per slot
+	fresh    bool                    // no mutator since the cache was last emptied
 	clock    uint64
 	hist     []string // human readable history (replay)
 	coqOps   []string
 	raw      [][]byte
 	violated map[string]bool
+	desc     string // store under test: format and cache size (part of every replay)
 }
 
 func (h *c6run) violate(class, what string) {
@@ -384,7 +390,7 @@ func (h *c6run) violate(class, what string) {
 		return
 	}
 	h.violated[class] = true
-	h.rep.Violate(class, what, strings.Join(h.hist, " ; "))
+	h.rep.Violate(class, what, h.desc+": "+strings.Join(h.hist, " ; "))
 }
 
 func (h *c6run) ordOf(key []byte) int {
@@ -489,6 +495,16 @@ func (h *c6run) doGen(s c6slot) {
 	h.rep.OracleChecks++
 }
 
+func (h *c6run) destroyed(s c6slot, o int) {
+	if o == 0 {
+		return
+	}
+	if h.gone[s] == nil {
+		h.gone[s] = map[int]bool{}
+	}
+	h.gone[s][o] = true
+}
+
 func (h *c6run) offer(s c6slot, l []int) {
 	if h.offered[s] == nil {
 		h.offered[s] = map[int]bool{}
@@ -528,6 +544,16 @@ func (h *c6run) checkRead(op string, s c6slot, got []int) {
 			if h.offered[s][o] && !c6has(got, o) {
 				h.violate("v1-cache-drops-surviving-key",
 					fmt.Sprintf("v1 with cache: key %d of %v was offered earlier and survives but is no longer offered (got [%s]) before any cache reset", o, s, c6ints(got)))
+				break
+			}
+		}
+		// warm cache: the first entry (the "current" key) may be stale until the reset, but the older
+		// keys that follow it are read from the listed history: a destroyed key has no place there
+		// (a destruction by listed index removes that key and no other, also from what is offered)
+		for p, o := range got {
+			if p >= 1 && h.gone[s][o] {
+				h.violate("v1-cache-offers-destroyed-key",
+					fmt.Sprintf("v1 with cache: key %d of %v was destroyed but is still offered among the older keys (got [%s], surviving [%s]) before any cache reset", o, s, c6ints(got), c6ints(e.all(false))))
 				break
 			}
 		}
@@ -619,6 +645,7 @@ func (h *c6run) doDestroyCur(s c6slot) {
 	e := h.spec.at(s)
 	if tag == c6Ok || h.v2 {
 		// v2 reports an error when there is nothing to destroy; the effect is the same
+		h.destroyed(s, e.cur)
 		e.cur = 0
 	}
 	h.fresh = false
@@ -633,7 +660,7 @@ func (h *c6run) doDestroyRot(s c6slot, i int) {
 	if valid != (tag == c6Ok) && tag != c6Panic {
 		h.violate(h.name()+"-destroyrot-status", fmt.Sprintf("%s: destroying rotated key %d of %v (rotated keys listed: %d) returned %v", h.name(), i, s, len(e.rot), []string{"ok", "an error"}[tag]))
 	}
-	e.destroyRot(i)
+	h.destroyed(s, e.destroyRot(i))
 	h.fresh = false
 }
 
@@ -662,23 +689,116 @@ func (h *c6run) emit(label string, cacheSize int) {
 
 func c6pickSlot(r *vh.Rng, slots []c6slot) c6slot { return slots[r.Intn(len(slots))] }
 
+// c6newRun builds the keystore under test (v2, or v1 with the given cache size) and an empty history.
+func c6newRun(rep *vh.Report, r *vh.Rng, v2 bool, cacheSize int) *c6run {
+	h := &c6run{rep: rep, r: r, v2: v2, cached: !v2 && cacheSize != keystore.WithoutCache, spec: c6spec{},
+		ords: map[string]int{}, offered: map[c6slot]map[int]bool{}, gone: map[c6slot]map[int]bool{}, fresh: true, violated: map[string]bool{}}
+	var err error
+	if v2 {
+		h.desc = "keystore v2"
+		h.drv, err = newC6v2(r)
+	} else {
+		h.desc = fmt.Sprintf("keystore v1 CacheSize(%d)", cacheSize)
+		switch cacheSize {
+		case keystore.WithoutCache:
+			h.desc += " = no cache"
+		case keystore.InfiniteCacheSize:
+			h.desc += " = unbounded cache"
+		}
+		h.drv, err = newC6v1(r, cacheSize)
+	}
+	if err != nil {
+		rep.Violate("harness-setup", "cannot construct keystore: "+err.Error(), "")
+		return nil
+	}
+	return h
+}
+
+func (h *c6run) readAllOrCur(s c6slot) {
+	if c6HasAll(s.kind) {
+		h.doAll(s)
+	} else {
+		h.doCur(s)
+	}
+}
+
+// c6WarmDestroyFamily: the structured family "rotate N times, read all keys (the cache is now warm and
+// agrees with the storage), destroy the rotated key listed with index i, read all keys again WITHOUT
+// any reset, list the rotated keys, reset, read all keys" — enumerated for every key kind that keeps
+// rotated keys, every N, every listed index i (oldest, newest, middle: not only the mirror-symmetric
+// ones) and every store configuration with a cache.  Before the reset the oracle demands that no
+// surviving key offered by the first read is missing and that the destroyed key is not among the
+// older keys offered; after the reset everything must equal the specification exactly.
+func c6WarmDestroyFamily(rep *vh.Report, r *vh.Rng, thorough bool) {
+	type cfg struct {
+		v2   bool
+		size int
+	}
+	cfgs := []cfg{{false, 1}, {false, keystore.InfiniteCacheSize}}
+	maxN := 4
+	if thorough {
+		cfgs = append(cfgs, cfg{false, keystore.WithoutCache}, cfg{false, 2}, cfg{false, 8}, cfg{true, keystore.WithoutCache})
+		maxN = 6
+	}
+	sc := 0
+	for _, c := range cfgs {
+		for kind := kStoragePair; kind <= kPoisonSym; kind++ { // kAudit has no rotated-key destruction
+			for n := 2; n <= maxN; n++ {
+				for i := 2; i <= n+1; i++ {
+					h := c6newRun(rep, r, c.v2, c.size)
+					if h == nil {
+						continue
+					}
+					owner := 0
+					if kind <= kHmac {
+						owner = 1 + r.Intn(len(c6Clients)-1)
+					}
+					s := c6slot{kind, owner}
+					rep.Count(fmt.Sprintf("store:%s cache:%d", h.name(), c.size))
+					rep.Count("opening:warm-destroy-family")
+					rep.Count(fmt.Sprintf("warm-destroy:rotations=%d", n))
+					rep.Count("warm-destroy:index=" + map[bool]string{true: "mirror-symmetric", false: "asymmetric"}[2*(i-2) == n-1])
+					rep.Count("kind:" + c6KindCoq[kind])
+					for g := 0; g <= n; g++ { // first generation + n rotations
+						h.doGen(s)
+					}
+					if r.Bool() { // the current key read on its own as well (another cache entry, other LRU order)
+						h.doCur(s)
+					}
+					h.readAllOrCur(s) // warm: list of historical names and every key value cached
+					h.doDestroyRot(s, i)
+					h.readAllOrCur(s) // no reset in between
+					h.doListRot(s)
+					if r.Intn(3) == 0 && len(h.spec.at(s).rot) > 0 {
+						// a second destruction through the same warm cache
+						j := 2 + r.Intn(len(h.spec.at(s).rot))
+						rep.Count("warm-destroy:second-destruction")
+						h.doDestroyRot(s, j)
+						h.readAllOrCur(s)
+						h.doListRot(s)
+					}
+					h.doReset(r.Intn(4) == 0)
+					h.readAllOrCur(s)
+					h.doCur(s)
+					h.doListRot(s)
+					h.emit(fmt.Sprintf("wd%d %s cache=%d %v rotations=%d destroy=%d", sc, h.name(), c.size, s, n, i), c.size)
+					sc++
+				}
+			}
+		}
+	}
+}
+
 func runC06(rep *vh.Report, r *vh.Rng, n int, thorough bool) {
+	c6WarmDestroyFamily(rep, r, thorough)
 	for sc := 0; sc < n; sc++ {
 		v2 := sc%3 == 2
 		cacheSize := keystore.WithoutCache
 		if !v2 {
 			cacheSize = []int{keystore.WithoutCache, 1, keystore.InfiniteCacheSize, keystore.WithoutCache, keystore.InfiniteCacheSize, 1}[(sc/3+sc)%6]
 		}
-		h := &c6run{rep: rep, r: r, v2: v2, cached: !v2 && cacheSize != keystore.WithoutCache, spec: c6spec{},
-			ords: map[string]int{}, offered: map[c6slot]map[int]bool{}, fresh: true, violated: map[string]bool{}}
-		var err error
-		if v2 {
-			h.drv, err = newC6v2(r)
-		} else {
-			h.drv, err = newC6v1(r, cacheSize)
-		}
-		if err != nil {
-			rep.Violate("harness-setup", "cannot construct keystore: "+err.Error(), "")
+		h := c6newRun(rep, r, v2, cacheSize)
+		if h == nil {
 			continue
 		}
 		// a small pool of slots so that histories revisit them: a focus slot gets most operations
